@@ -238,8 +238,7 @@ ElemAttribute::startElement(StylesheetExecutionContext& executionContext) const
                             executionContext.getResultNamespaceForPrefix(newPrefix);
 
                         if (theNamespace != 0 &&
-                            equals(*theNamespace, attrNameSpace) == false &&
-                            executionContext.isPendingResultPrefix(newPrefix) == true)
+                            equals(*theNamespace, attrNameSpace) == false)
                         {
                             // It doesn't, so we'll need to manufacture a
                             // prefix.
@@ -560,8 +559,7 @@ ElemAttribute::execute(StylesheetExecutionContext&  executionContext) const
                             executionContext.getResultNamespaceForPrefix(newPrefix);
 
                         if (theNamespace != 0 &&
-                            equals(*theNamespace, attrNameSpace) == false &&
-                            executionContext.isPendingResultPrefix(newPrefix) == true)
+                            equals(*theNamespace, attrNameSpace) == false)
                         {
                             // It doesn't, so we'll need to manufacture a
                             // prefix.
